@@ -1,0 +1,14 @@
+//
+// Verification hooks: compiled in only with -DARTYOM_BEILIS_CPPCMS_VERIF.
+// With the guard off this header defines no-op macros only.
+//
+#ifndef BOOSTER_VERIF_HOOKS_H
+#define BOOSTER_VERIF_HOOKS_H
+#ifdef ARTYOM_BEILIS_CPPCMS_VERIF
+extern "C" unsigned artyom_beilis_cppcms_verif_rand() __attribute__((weak));
+extern "C" void artyom_beilis_cppcms_verif_probe(char const *id) __attribute__((weak));
+#define CPPCMS_VERIF_PROBE(id) do { if(artyom_beilis_cppcms_verif_probe) artyom_beilis_cppcms_verif_probe(id); } while(0)
+#else
+#define CPPCMS_VERIF_PROBE(id) ((void)0)
+#endif
+#endif
